@@ -211,6 +211,7 @@ package main
 //@   ensures [C03] gone:    sess != nil && sess.multi == nil ==> !((sess in t.sessions) && t.sessions[sess].uid == asUid)
 //@   ensures [C03] no_new:  forall s *Session :: (s in t.sessions) ==> old(s in t.sessions) && t.sessions[s].uid == old(t.sessions[s].uid)
 //@   ensures [C14] untouched_when_not_found: pssd == nil ==> forall s *Session :: (s in t.sessions) == old(s in t.sessions)
+//@   ensures [C10,C14] returns_the_entry: pssd != nil && sess != nil && sess.multi == nil ==> old(sess in t.sessions) && pssd.uid == old(t.sessions[sess].uid) && pssd.isChanSub == old(t.sessions[sess].isChanSub)
 
 //@ func (t *Topic) evictUser(uid types.Uid, unsub bool, skip string)
 //@   requires [C03] t != nil
@@ -783,6 +784,7 @@ package main
 //@ func (t *Topic) handleLeaveRequest(msg *ClientComMessage, sess *Session)
 //@   requires [C14] t != nil && msg != nil && sess != nil && (msg.init ==> msg.Leave != nil)
 //@   modifies *
+//@   ensures [C10] online_follows_attachment: old(sess.multi == nil && sess.proto != PROXY && !sess.background && (sess in t.sessions) && !(msg.init && msg.Leave.Unsub) && t.sessions[sess].uid != types.ZeroUid && (t.sessions[sess].uid in t.perUser)) && !(sess in old(t.sessions)) && (old(t.sessions[sess].uid) in t.perUser) ==> t.perUser[old(t.sessions[sess].uid)].online == old(t.perUser[t.sessions[sess].uid].online) - 1
 //@   ensures [C14] both_sides_agree: old(sess.multi == nil && sess.proto != PROXY && (sess in t.sessions) && !(msg.init && msg.Leave.Unsub)) && !(sess in old(t.sessions)) ==> !(old(t.name) in sess.subs)
 // countSub takes no lock itself: its callers must hold one.
 //@ func (s *Session) countSub() (n int)
